@@ -23,7 +23,19 @@ THEOREMS = [
     "C06.action_writes_kept_history",
     "C06.fire_one_applies_assignments",
     "C06.action_writes_kept_needs_map_data",
+    # reach audit: the other public entry points (Ext.lean / ExtTheorems.lean)
+    "C06.insert_explicit_is_insert",
+    "C06.strategy_transparent",
+    "C06.insert_template_checked",
+    "C06.xstep_eq_run_lower",
+    "C06.xstep_resetDeffacts",
+    "C06.xrun_eq_run_lower",
+    "C06.wm_views_agree_xhistory",
+    "C06.handles_fresh_xhistory",
+    "C06.string_ops_need_strings",
+    "C06.in_is_membership",
 ]
+LEAN_TARGETS = ["RreModel.C06.Theorems", "RreModel.C06.ExtTheorems"]
 N = {"quick": 1500, "thorough": 20000}
 EXHAUSTIVE = {"quick": False, "thorough": False}
 EXEC_TIMEOUT = 900
@@ -56,6 +68,21 @@ RULE = ("cases = corpus (defect witnesses, corner cases) + N random histories of
         "since the last fire_all, and — whatever was touched — for every call that fires at least one rule) is evaluated on the "
         "implementation's observations of every case; model and implementation observations are compared in full on the histories in "
         "which no type ever has two live facts (flag D1: nothing can depend on HashMap iteration order; about 80% of the cases). "
+        "REACH (coverage audit): 8 in 50 cases are of the family 'every public way a fact enters' — insert interleaved with insert_explicit, "
+        "insert_with_template (the harness registers a template for T1: f0 Integer required, f1 String optional; valid and invalid facts, "
+        "types without template), load_deffacts / load_deffacts_by_name (a registered set with one fact that violates the template; unknown "
+        "name), reset_with_deffacts (new working memory: the oracle starts a new epoch, numbering restarts at 1) and "
+        "set_conflict_resolution_strategy (all 8 strategies, read back) — modelled in RreModel/C06/Ext.lean (XOp; every extended operation "
+        "except reset_with_deffacts is a list of inserts: xrun_eq_run_lower) with oracle clauses template_not_checked, "
+        "template_rejects_valid_fact, rejected_insert_changes_wm, strategy_not_set, strategy_changes_wm, load_deffacts*:handles / "
+        "wm_views_agree / result, reset_with_deffacts:*; 7 in 50 are of the family 'string operators and in' (contains / startsWith / endsWith "
+        "against words over {a,b,c}, another field or a non-string; in against array literals of mixed element types; negated and compound; "
+        "through the API and through GRL text); one rule in eight of the general family (one in four of the string family) is built with "
+        "AlphaNode::with_typed_value; 4 in 50 are of the family 'the strategy setter between fire_all calls' (seeded change C06-10: quiet no-loop "
+        "rules the facts satisfy, fire_all, then rounds of S<k> (different strategy / the same again / two in a row) + a touch that re-creates "
+        "activations of rules that already fired + fire_all without reset: clause no_loop_twice; with a reset: exactness). Every observation token now ends with IncrementalEngine::stats() (rules, total / active / retracted "
+        "facts, indexed types, dependency types): oracle clause stats_agree (the counting twins of the listings against the reference "
+        "working memory). "
         "Non-trivial = at least one rule fired in a history that also updates or retracts a fact; distinct = distinct case text.")
 TRUSTED = [
     "Lean 4.33 kernel; axioms of every property theorem within {propext, Classical.choice, Quot.sound} (audited each run)",
@@ -72,6 +99,9 @@ ASSUMPTIONS = [
     "`Type.field` keys of the flattened copy) is a free choice of the implementation: the model fixes one, the theorems do not depend "
     "on it, complete observations are compared only when at most one fact per type is live, the oracle is evaluated always",
     "rules are added before any fact is inserted (as GrlReteLoader users do); activations are created by propagation only",
+    "reset_with_deffacts installs a NEW WorkingMemory (CLIPS reset): 'handles are never reused' is stated per working memory — the "
+    "oracle starts a new epoch there (handles_fresh_xhistory: second conjunct excludes it; wm_views_agree_xhistory includes it)",
+    "strings: `s<k>` identifiers and words over {a,b,c} (no string that parses as a number or boolean; no string equal to a field key)",
     "exactness clause: fact contents are maps (one binding per field, as TypedFacts is a HashMap); at most max_iterations = 1000 rules",
 ]
 
